@@ -477,8 +477,8 @@ func c06Predicates(e *Env) {
 		}
 		e.R.Check(ok, rule, "udp/client.midElement.IsExpired:count≥max", e.fpos(f), "expired whenever the retransmit count ≥ MAX_RETRANSMIT", "expiry is no longer 'count ≥ MAX_RETRANSMIT' (one copy more or fewer would be sent)")
 		okD := false
-		for _, c := range core.CallsNamed(f, "time.Time.After") {
-			if core.Unwrap(core.Arg(c, 0)) == ssa.Value(f.Params[1]) {
+		for _, c := range core.CallsNamed(f, "time.Time.After", "time.Time.Before") {
+			if later, _, isA := core.TimeAfter(c); isA && core.Unwrap(later) == ssa.Value(f.Params[1]) {
 				okD = true
 			}
 		}
@@ -520,7 +520,7 @@ func c06Predicates(e *Env) {
 		var afterIf *ssa.If
 		for _, i := range core.IfsOf(f) {
 			cond, _ := core.StripNot(i.Cond)
-			if _, ok := core.CondCall(cond, "time.Time.After"); ok {
+			if _, _, _, ok := core.CondTimeAfter(cond); ok {
 				afterIf = i
 			}
 		}
@@ -1080,12 +1080,24 @@ func udpAckWaits(e *Env) []ackWait {
 				if c.Dir != types.RecvOnly || c.Chan == nil {
 					continue
 				}
-				ct, ok := c.Chan.Type().Underlying().(*types.Chan)
-				if !ok {
-					continue
+				isSignal := func(t types.Type) bool {
+					ct, ok := t.Underlying().(*types.Chan)
+					if !ok {
+						return false
+					}
+					st, isStruct := ct.Elem().Underlying().(*types.Struct)
+					return isStruct && st.NumFields() == 0
 				}
-				st, isStruct := ct.Elem().Underlying().(*types.Struct)
-				if !isStruct || st.NumFields() != 0 {
+				sig := isSignal(c.Chan.Type())
+				if !sig {
+					// the wait lives in a generic helper (`<-chan T`): the channels its callers pass
+					for _, alt := range core.ResolveAll(c.Chan) {
+						if alt != nil && isSignal(alt.Type()) {
+							sig = true
+						}
+					}
+				}
+				if !sig {
 					continue
 				}
 				if c.Class == "req-ctx" || c.Class == "conn-ctx" || c.Class == "ctx" || c.Class == "timer" {
